@@ -16,6 +16,7 @@ SUBS = [
     # (never fails) when the machine is shared
     dict(name="heap", quick=dict(cases=18000, shards=10, maxsec=25), thorough=dict(cases=32000, shards=10, maxsec=300)),
     dict(name="timerqueue", quick=dict(cases=20000, shards=6, maxsec=25), thorough=dict(cases=32000, shards=6, maxsec=300)),
+    dict(name="big", quick=dict(cases=4, shards=2), thorough=dict(cases=40, shards=4)),
 ]
 
 
